@@ -24,7 +24,9 @@ import vcheck
 LEVEL = "proof"
 
 MODEL_FILES = ["IR/SemProps.v", "Wgsl/Sem.v", "Wgsl/SemProps.v", "Spv/Binary.v", "Spv/Ops.v", "Spv/Sem.v", "Spv/Catalogue.v", "Spv/CatalogueProofs.v", "Spv/OpTableCheck.v",
-               "Base/Bits32.v", "Base/F32.v", "IR/Values.v"]
+               "Base/Bits32.v", "Base/F32.v", "IR/Values.v", "Spv/VectorLift.v", "Spv/VectorLiftCheck.v",
+               "Target/Structured.v", "Target/LoopInit.v", "Target/LoopBound.v", "Target/ContinueForward.v", "Target/SwitchForms.v",
+               "Target/Desugar.v", "Target/IrInstance.v", "Target/GlslInstance.v", "Target/Examples.v"]
 
 # catalogue keys whose template is refuted by a lemma -> the finding it belongs to (known_findings.jsonl `match`)
 REFUTED_FINDING = {
@@ -123,6 +125,52 @@ def missing_rows_from_coq():
     return [(k, int(n)) for k, n in re.findall(r'\("([^"]+)",\s*(\d+)\)', so)], (so + se)[-600:]
 
 
+def vector_lift_report_from_coq():
+    """Ask Coq which vector-shaped probed rows are outside the class of the vector-lifting theorem
+    (Spv/VectorLift.v; Gen/SpvOpTable.vo is data and compiles even when the obligation in Spv/VectorLiftCheck.v fails)."""
+    d = os.path.join(vcheck.BUILD, "c01")
+    os.makedirs(d, exist_ok=True)
+    p = os.path.join(d, "veclift.v")
+    with open(p, "w") as f:
+        f.write("From Coq Require Import List ZArith String.\nRequire Import Naga.Spv.Catalogue Naga.Spv.VectorLift Naga.Gen.SpvOpTable.\n"
+                "Eval vm_compute in (Z.of_nat (List.length (rows_lifted table)), Z.of_nat (List.length (filter is_vector_row table))).\n"
+                "Eval vm_compute in (rows_not_lifted table).\n"
+                "Eval vm_compute in (rows_not_vectorized table).\n")
+    rc, so, se = vcheck.coqc_file(p, timeout=600, cwd=d)
+    parts = so.split("     = ")
+    rows = lambda txt: [(k, int(n)) for k, n in re.findall(r'\("([^"]+)",\s*(\d+)\)', txt)]
+    counts = re.findall(r"\((\d+),\s*(\d+)\)", parts[1]) if len(parts) > 1 else []
+    lifted, total = (int(counts[0][0]), int(counts[0][1])) if counts else (None, None)
+    return {"rc": rc, "lifted": lifted, "vector_rows": total,
+            "not_lifted": rows(parts[2]) if len(parts) > 2 else [],
+            "not_vectorized": rows(parts[3]) if len(parts) > 3 else [],
+            "out": (so + se)[-600:]}
+
+
+def search_vector_rows(ctx, tools, exe_ir, exe_spv, rows, why):
+    """The search for rows outside the vector-lifting class: run their probe programs through both interpreters."""
+    tab = {(e["key"], e["shape"]): e for e in (spvcheck.LAST_PROBE or spvcheck.probe_table(tools))}
+    for k, n in rows[:40]:
+        e = tab.get((k, n))
+        if e is None or "spv" not in e:
+            continue
+        comp = {"ir": e["ir"], "spv": e["spv"]}
+        inputs = spvcheck.gen_inputs(e["ir"], ctx.rng.fork("vecprobe/%s/%d" % (k, n)), ctx.scale(40, 200), rt_len=2)
+        res = spvcheck.run_items(exe_ir, exe_spv, [(comp, inputs, None)])[0] or []
+        hit = [(c, d, i) for (c, d, _a, _b), i in zip(res, inputs) if c in ("differ", "spv_ub", "spv_impl", "spv_fail")]
+        msg = ("the vector template naga now emits for `%s` (vec%d) is %s, so the per-component reading of the scalar lemma "
+               "(teval_vector_lift) does not apply to it" % (k, n, why))
+        if hit:
+            c, d, i = hit[0]
+            ctx.violation("%s and it is wrong: %s\ntemplate: %s" % (msg, d, spvcheck.coq_texp(e["tpl"])),
+                          files={"program.wgsl": e["src"], "inputs.json": json.dumps(i, indent=1)},
+                          key="spv-vector-template-not-componentwise:%s:%d" % (k, n), broken="gen_vector_rows_lift (Spv/VectorLiftCheck.v)")
+        else:
+            ctx.violation("%s (no differing input among %d)\ntemplate: %s" % (msg, len(inputs), spvcheck.coq_texp(e["tpl"])),
+                          files={"program.wgsl": e["src"]}, found_input=False,
+                          key="spv-vector-template-not-componentwise:%s:%d" % (k, n), broken="gen_vector_rows_lift (Spv/VectorLiftCheck.v)")
+
+
 def search_probe(ctx, tools, exe_ir, exe_spv, rows):
     """The search: run the probe programs of the rows that left the catalogue through both interpreters."""
     tab = {(e["key"], e["shape"]): e for e in (spvcheck.LAST_PROBE or spvcheck.probe_table(tools))}
@@ -158,12 +206,14 @@ def search_probe(ctx, tools, exe_ir, exe_spv, rows):
 
 def run(ctx):
     import wgslgen
+    import cfskel
+    irshapes = cfskel.IrShapes()
     REPORTED.clear()
     tools = vcheck.build_harness(["nagadrive", "goextract"])
     ok, failed, log = vcheck.proof_step(
         ctx, "Props/C01.v", MODEL_FILES,
         gen_writer=lambda: gen.regenerate(tools, ["irenums", "spvoptable"]),
-        extra_obligation_files=["Spv/OpTableCheck.v", "Spv/CatalogueProofs.v"])
+        extra_obligation_files=["Spv/OpTableCheck.v", "Spv/CatalogueProofs.v", "Spv/VectorLiftCheck.v", "Props/C01Vec.v"])
     ctx.cov["trusted_base"] += [
         "SPIR-V semantics: coq/Spv/Ops.v + Spv/Sem.v are my transcription of the SPIR-V 1.6 and GLSL.std.450 specifications (opcode numbers, operand layouts, undefined cases), independent of naga's spirv.go",
         "WGSL operator meaning: coq/Base/Bits32.v, Base/F32.v (Flocq binary32), IR/Values.v, IR/Sem.v (shared reference semantics)",
@@ -192,10 +242,30 @@ def run(ctx):
             n = search_probe(ctx, tools, exe_ir, exe_spv, rows)
             if rows and n == 0 and not ctx.violations:
                 ctx.violation(broken, found_input=False, broken=broken)
-            elif not rows:
+            elif not rows and not any("VectorLiftCheck" in f for f in failed):
                 ctx.violation(broken + "\n" + out, found_input=False, broken=broken)
+        elif any("VectorLiftCheck" in f for f in failed) or "VectorLiftCheck" in log:
+            pass    # reported below from the vector-lifting report
         else:
             ctx.violation(broken, found_input=False, broken=broken)
+    # vector shapes: every in-scope vector row must be in the class of teval_vector_lift (Spv/VectorLiftCheck.v)
+    vl = vector_lift_report_from_coq()
+    ctx.cov["vector_rows_probed"] = vl["vector_rows"]
+    ctx.cov["vector_rows_covered_by_teval_vector_lift"] = vl["lifted"]
+    ctx.cov["vector_rows_outside_lifting_class"] = vl["not_lifted"][:50]
+    ctx.cov["vector_rows_not_splat_of_scalar_form"] = vl["not_vectorized"][:50]
+    if vl["not_lifted"] or vl["not_vectorized"]:
+        n0 = len(ctx.violations)
+        search_vector_rows(ctx, tools, exe_ir, exe_spv, vl["not_lifted"],
+                           "not a component-wise template with all splats of the vector's width (scalar constant where a splat is needed, wrong splat width, or a non-component-wise instruction)")
+        search_vector_rows(ctx, tools, exe_ir, exe_spv, [r for r in vl["not_vectorized"] if r not in vl["not_lifted"]],
+                           "not the scalar catalogue template with its constants splatted")
+        if len(ctx.violations) == n0:
+            b = "gen_vector_rows_lift: vector rows outside the lifting class: %s / not vectorized: %s" % (vl["not_lifted"][:8], vl["not_vectorized"][:8])
+            ctx.violation(b, found_input=False, broken=b)
+    elif (not ok and (any("VectorLiftCheck" in f for f in failed) or "VectorLiftCheck" in log)) or vl["lifted"] is None:
+        b = "Spv/VectorLiftCheck.v no longer checks (vector-lifting tie): %s" % (vl["out"] if vl["lifted"] is None else (failed or log[-600:]))
+        ctx.violation(b, found_input=False, broken=b)
     # refuted templates that naga still emits: findings proved by the `_refuted` lemmas
     seen = set()
     for e in probe:
@@ -235,12 +305,18 @@ def run(ctx):
             ctx.violation("hand-written program %s no longer compiles to SPIR-V: %s" % (name, {k: v for k, v in (c or {}).items() if k in ("err", "stage", "spv_err", "panic", "crash")}),
                           files={"program.wgsl": src}, key="spv-rejects:%s" % name, broken="naga.GenerateSPIRV on a valid program")
             continue
+        irshapes.add(ctx, name, src, c["ir"])
         inputs = spvcheck.gen_inputs(c["ir"], ctx.rng.fork("hand/" + name), ctx.scale(4, 16), rt_len=24, small_ints=[0, 1, 2, 3, 4, 5])
         if inputs is None:
             continue
-        items.append((c, inputs, None))
-        meta.append((name, src, inputs, spvcheck.spv_words(c["spv"])))
+        # every compute entry point of the module is run (a program may have several: state shared between the entry
+        # points of one module - caches keyed by function, interface lists, zero-initialisation - is only visible then)
+        eps_ = spvcheck.compute_entry_points(c["ir"])
+        for _epi, epn in (eps_ if len(eps_) > 1 else [(0, None)]):
+            items.append((c, inputs, epn))
+            meta.append((name if epn is None else name + ":" + epn, src, inputs, spvcheck.spv_words(c["spv"])))
     ftag = {n: [t[8:] for t in tags if t.startswith("finding:")] for n, tags, _s in spvprogs.PROGRAMS}
+    ftag = dict(ftag, **{n + ":" + e: v for n, v in ftag.items() for e in ("main", "pass_a", "pass_b", "pass_c")})
     for (name, src, inputs, words), res in zip(meta, spvcheck.run_items(exe_ir, exe_spv, items)):
         account("hand", name, src, res, inputs, words, (ftag.get(name) or [None])[0])
     if samples == [] and meta:
@@ -262,12 +338,14 @@ def run(ctx):
         if c is None or "ir" not in c or "spv" not in c:
             rejected += 1          # acceptance of valid programs is C08's property; counted, not reported here
             continue
+        irshapes.add(ctx, "generated", src, c["ir"])
         inputs = spvcheck.generated_inputs(wgslgen, prog, ctx.rng.fork("genin/" + name), ctx.scale(3, 4))
         items.append((c, inputs, None))
         meta.append((name, src, inputs, spvcheck.spv_words(c["spv"])))
     for (name, src, inputs, words), res in zip(meta, spvcheck.run_items(exe_ir, exe_spv, items)):
         account("generated", name, src, res, inputs, words)
     stats.setdefault("generated", {})["rejected_by_naga"] = rejected
+    ctx.cov["lowering_shapes"] = irshapes.evidence()     # tie of c01_while/for_desugar_equiv (coq/Target/Desugar.v)
     if meta:
         ctx.sample({"program": meta[0][1][:400]})
 
